@@ -1224,6 +1224,13 @@ impl Vm {
     }
 }
 
+#[cfg(numbat_verif)]
+impl Vm {
+    pub(crate) fn verif_stack(&self) -> &[Value] {
+        &self.stack
+    }
+}
+
 #[test]
 fn vm_basic() {
     let mut vm = Vm::new();
